@@ -1011,6 +1011,14 @@ def run(prop, tier):
         res.fail(site, kind, detail, {"orig": fl["orig"], "variant": fl["var"], "path": fl["path"], "kind": fl["variant"], "vseed": fl["vseed"]})
         samples.append({"site": site, "kind": kind, "path": fl["path"], "variant": fl["variant"], "lines": fl["var"].count("\n")})
     res.coverage["confinement"] = dict(confine_stats, new=len(new_direct), vanished=len(gone_direct), new_primitives=new_prims)
+    # >>> WP1 layer P: translated productions vs the real ones (coverage["layerP"])
+    try:
+        import props_prog
+
+        props_prog.extra(res, tier)
+    except ImportError:
+        pass
+    # <<< WP1 layer P
     res.coverage.update(
         {
             "evaluations": pairs,
